@@ -61,10 +61,10 @@ type wsWrap struct {
 	path string
 }
 
-func (w *wsWrap) Subprotocol() string            { return "rtsp" }
+func (w *wsWrap) Subprotocol() string           { return "rtsp" }
 func (w *wsWrap) TextTransport() websocket.Conn { return w }
-func (w *wsWrap) Path() string                   { return w.path }
-func (w *wsWrap) Username() string               { return "" }
+func (w *wsWrap) Path() string                  { return w.path }
+func (w *wsWrap) Username() string              { return "" }
 
 var (
 	listener net.Listener
@@ -432,6 +432,83 @@ func runCase(c Val) Val {
 	wedged := false
 	mediaSeen := func() bool { return cl.frames > 0 || atomic.LoadInt32(&udpSeen) != 0 }
 
+	// the session's effects on the registry: the streams it has created so far (anything registered that
+	// the harness did not publish), whether they are live, and who consumes them
+	nrec, wantPlayer := int(c.At(5).At(0).Int()), c.At(5).At(1).Bool()
+	effNote = ""
+	var created []*media.Stream
+	var recs []*effRec
+	var player net.Conn
+	var playerEnded int32
+	effects := []Val{}
+	scanEffects := func() {
+		for _, s := range media.VerifRegistry() {
+			mine := true
+			for _, e := range w.ext {
+				if e == s {
+					mine = false
+				}
+			}
+			for _, k := range created {
+				if k == s {
+					mine = false
+				}
+			}
+			if !mine {
+				continue
+			}
+			created = append(created, s)
+			if len(created) == 1 {
+				for i := 0; i < nrec; i++ {
+					r := &effRec{}
+					recs = append(recs, r)
+					s.StartConsume(r, media.RTPPacket, "verif-effects")
+				}
+				if wantPlayer {
+					player = effPlayer(s.Path(), &playerEnded)
+					// the PLAY answer is written before the consumer is registered (asTCPConsumer)
+					stop := time.Now().Add(2 * time.Second)
+					for s.ConsumerCount() < nrec+1 && time.Now().Before(stop) {
+						time.Sleep(100 * time.Microsecond)
+					}
+					if s.ConsumerCount() < nrec+1 {
+						effNote += fmt.Sprintf("player not consuming (%d);", s.ConsumerCount())
+					}
+				}
+			}
+		}
+		count := func() (live, cons int) {
+			for _, s := range created {
+				if media.VerifStatus(s) == media.StreamOK {
+					live++
+				}
+				cons += s.ConsumerCount()
+			}
+			return
+		}
+		live, cons := count()
+		if cl.dead {
+			// the connection is gone: the session's cleanup runs in its own goroutine
+			stop := time.Now().Add(2 * time.Second)
+			if effSlow > 3 {
+				stop = time.Now().Add(30 * time.Millisecond)
+			}
+			for (live != 0 || cons != 0) && time.Now().Before(stop) {
+				time.Sleep(200 * time.Microsecond)
+				live, cons = count()
+			}
+		}
+		effects = append(effects, L(I(int64(len(created))), I(int64(live)), I(int64(cons))))
+	}
+	defer func() {
+		if player != nil {
+			player.Close()
+		}
+		for _, s := range created {
+			s.Close()
+		}
+	}()
+
 	for _, q := range reqs {
 		resps := []Val{}
 		if !cl.dead && !wedged {
@@ -500,11 +577,96 @@ func runCase(c Val) Val {
 		}
 		steps = append(steps, L(L(resps...), Bo(cl.dead), reg))
 		medias = append(medias, Bo(mediaSeen()))
+		scanEffects()
 	}
 	// the client disconnects
 	cl.conn.Close()
 	final := w.settledRegistry(watch)
-	return L(L(steps...), final, L(medias...))
+	// every stream the session ever created is closed and every consumer of it released
+	attached := len(recs)
+	if player != nil {
+		attached++
+	}
+	effFinal := func() (live, cons, released int) {
+		for _, s := range created {
+			if media.VerifStatus(s) == media.StreamOK {
+				live++
+			}
+			cons += s.ConsumerCount()
+		}
+		for _, r := range recs {
+			if atomic.LoadInt32(&r.closed) > 0 {
+				released++
+			}
+		}
+		if player != nil && atomic.LoadInt32(&playerEnded) != 0 {
+			released++
+		}
+		return
+	}
+	deadline := time.Now().Add(2 * time.Second)
+	if effSlow > 3 {
+		deadline = time.Now().Add(30 * time.Millisecond)
+	}
+	live, cons, released := effFinal()
+	for (live != 0 || cons != 0 || released != attached) && time.Now().Before(deadline) {
+		time.Sleep(200 * time.Microsecond)
+		live, cons, released = effFinal()
+	}
+	if live != 0 || cons != 0 || released != attached {
+		effSlow++
+	}
+	return L(L(steps...), final, L(medias...),
+		L(L(effects...), L(I(int64(live)), I(int64(cons)), I(int64(attached)), I(int64(released))), S(effNote)))
+}
+
+var effSlow int
+var effNote string
+
+// recording consumer attached to a stream the session under test has published
+type effRec struct{ closed int32 }
+
+func (r *effRec) Consume(p media.Pack) {}
+func (r *effRec) Close() error         { atomic.AddInt32(&r.closed, 1); return nil }
+
+// a real RTSP/TCP player of the published stream; *ended is set when its connection ends
+func effPlayer(path string, ended *int32) net.Conn {
+	nextWS <- ""
+	nc, err := net.Dial("tcp", listener.Addr().String())
+	if err != nil {
+		return nil
+	}
+	pc := &client{conn: nc, br: bufio.NewReader(nc)}
+	u := "rtsp://127.0.0.1:554" + path
+	for _, r := range []string{
+		fmt.Sprintf("DESCRIBE %s RTSP/1.0\r\nCSeq: 1\r\n\r\n", u),
+		fmt.Sprintf("SETUP %s/streamid=0 RTSP/1.0\r\nCSeq: 2\r\nTransport: RTP/AVP/TCP;unicast;interleaved=0-1\r\n\r\n", u),
+		fmt.Sprintf("PLAY %s RTSP/1.0\r\nCSeq: 3\r\n\r\n", u),
+	} {
+		if _, err := nc.Write([]byte(r)); err != nil {
+			break
+		}
+		resp, err := pc.next(3 * time.Second)
+		for err == nil && resp == nil {
+			resp, err = pc.next(3 * time.Second)
+		}
+		if err != nil {
+			effNote += fmt.Sprintf("player: %v;", err)
+			break
+		}
+		if resp.code != 200 {
+			effNote += fmt.Sprintf("player: %d to %.20q;", resp.code, r)
+		}
+	}
+	go func() {
+		for {
+			if _, err := pc.next(time.Hour); err != nil {
+				atomic.StoreInt32(ended, 1)
+				return
+			}
+		}
+	}()
+	return nc
 }
 
 func init() {
